@@ -14,7 +14,7 @@ TECHNIQUE = ("runtime monitoring of obtain_latters / obtain_formers / get_comple
              "string manipulation on k-mers (exhaustive for k <= 7), plus an icontract postcondition 'every entry is -1 or the "
              "j-th shift successor of its row' on every accessor-producing function while a graph workload runs")
 LEVEL_TEXT = ("Exhaustive over all 21 844 vertices of the orders k = 1..7 (successors, predecessors, duality, index <-> k-mer, "
-              "complete accessor rows); sampled for k = 8..12 at the boundary indices (0, 4^k-1, powers of 4 +- 1) with Python and "
+              "complete accessor rows); sampled for k = 8..12 (and k = 13..40 with Python ints, indices beyond 2^53 / 2^64) at the boundary indices (0, 4^k-1, powers of 4 +- 1) with Python and "
               "numpy integer index types; the accessor invariant is evaluated on every graph the library builds or converts in "
               "the workload.")
 LEVEL_NOTE = "Trusts string slicing/concatenation on k-mers and base-4 Horner evaluation in vlib/graphs.py."
@@ -90,6 +90,13 @@ def generate(ctx):
     for _ in range(ctx.pick(3, 12)):
         yield "complete_sequence", dict(k=rng.choice([1, 2, 2, 3, 4]), how=rng.choice(["direct", "remove_nasty_arc"]), rounds=rng.randint(1, 3),
                                         nonce=rng.getrandbits(20))
+    if ctx.shard in (0, 1, 2, 3):
+        yield "complete_sequence", dict(k=[5, 6, 6, 7][ctx.shard], how="direct", rounds=2, nonce=rng.getrandbits(20))
+    for _ in range(ctx.pick(40, 400)):
+        # long k-mers: pure index arithmetic far beyond what a graph in memory needs (indices past 2^53 from k = 27)
+        k = rng.randint(13, 40)
+        pts = [0, 4 ** k - 1, 4 ** (k - 1), 4 ** (k - 1) - 1, 2 ** 53 % 4 ** k, (2 ** 53 + 1) % 4 ** k, (2 ** 63 - 1) % 4 ** k, (2 ** 64 + 1) % 4 ** k]
+        yield "sampled", dict(k=k, vs=sorted(set(pts)) + [rng.randrange(4 ** k) for _ in range(6)], typ="int")
     for _ in range(ctx.pick(60, 600)):
         k = rng.randint(8, 12)
         pts = {0, 4 ** k - 1}
@@ -167,7 +174,7 @@ def check_sampled(ctx, case):
     for v in case["vs"]:
         _vertex(ctx, dsw, case["k"], v, case["typ"])
         ctx.done("vertex", dict(k=case["k"], v=v, typ=case["typ"]), True)
-    ctx.cls("sampled|k=%d" % case["k"], len(case["vs"]))
+    ctx.cls("sampled|k=%s" % (case["k"] if case["k"] <= 12 else ">12"), len(case["vs"]))
     ctx.cls("index-type|" + case["typ"], len(case["vs"]))
 
 
@@ -322,6 +329,8 @@ def floors(agg, tier):
         out.append("result-scrambling repeats: %d < 1000" % c.get("repeated after the result was scrambled", 0))
     if c.get("complete|k=5 verbose", 0) < 1 or c.get("complete|k=6 verbose", 0) < 1:
         out.append("complete accessor with progress output at orders 5 and 6 not exercised")
+    if c.get("sampled|k=>12", 0) < 300:
+        out.append("vertices of orders 13..40 sampled: %d < 300" % c.get("sampled|k=>12", 0))
     for typ in ("int64", "int32"):
         if c.get("index-type|" + typ, 0) < 50:
             out.append("index type %s observed %d" % (typ, c.get("index-type|" + typ, 0)))
